@@ -40,6 +40,12 @@ func runTopology(rec *mon.Recorder, c int) {
 			parts = 3 + rng.Intn(5)
 		}
 	}
+	wide := c%10 == 7
+	if wide {
+		// a dataset of dozens of single-replica partitions on three nodes: every node asks for a few dozen remote
+		// partitions at once (more than any bound on concurrent lookups)
+		nodes, repl, parts = 3, 1, 40+rng.Intn(25)
+	}
 	desc := fmt.Sprintf("case=%d nodes=%d partitions=%d replication=%d", c, nodes, parts, repl)
 	rec.Current(desc)
 	cl := sim.New(sim.Options{Nodes: nodes, Dir: os.Getenv("VERIF_SCRATCH") + fmt.Sprintf("/c17-%d", c), TickEvery: 10 * time.Millisecond, Seed: rec.Seed() + int64(c)})
@@ -58,6 +64,9 @@ func runTopology(rec *mon.Recorder, c int) {
 	want := make([]int, parts)
 	for p := range want {
 		want[p] = 1 + p*2 + rng.Intn(2)
+		if wide {
+			want[p] = 1 + p%4 + rng.Intn(2)
+		}
 	}
 	have := make([]int, parts)
 	ctx := context.Background()
